@@ -57,8 +57,45 @@ def report_undecided(rep, engine, rule_filter=None):
                 if construct not in seen:
                     seen.add(construct)
                     rep.undecided("interpretable", construct, where, why)
-    for err in engine.errors:
-        rep.undecided("interpretable", "engine", "-", err)
+    if rule_filter is None:
+        for err in engine.errors:
+            rep.undecided("interpretable", "engine", "-", err)
+
+
+def shape_has_top(sh):
+    from ..e3_values import TopV
+    for x in walk_shapes(sh):
+        for f, v in x.attrs.items():
+            if isinstance(v, TopV):
+                return True
+    return False
+
+
+def runs_of(eng, rule, exact=True):
+    """Runs of one rule.  Runs on parameter shapes that carry an unknown (TOP) field are
+    artefacts of an idiom outside the analysed subset somewhere upstream; the checks that
+    quantify over all productions report that idiom, the targeted checks leave them out."""
+    out = []
+    for mk, run in eng.runs.items():
+        if run.rule is not rule:
+            continue
+        if exact and any(s is not None and shape_has_top(s) for s in run.shapes):
+            continue
+        out.append(run)
+    return out
+
+
+class Relevant:
+    """Collects the rules a targeted check looked at, for scoped UNDECIDED reporting."""
+
+    def __init__(self):
+        self.names = set()
+
+    def add(self, rule):
+        self.names.add(rule.name)
+
+    def __call__(self, rule):
+        return rule.name in self.names
 
 
 def func_of(mod, qual):
